@@ -2969,12 +2969,17 @@ class LinearOperator(object):
     ) -> Float[LinearOperator, "... M N"]:
         return self.mul(other)
 
+    @_implements_second_arg(torch.add)
     @_implements_second_arg(torch.Tensor.add)
     def __radd__(
         self: Float[LinearOperator, "*batch #M #N"],
         other: Union[Float[torch.Tensor, "*batch2 #M #N"], Float[LinearOperator, "*batch2 #M #N"], float],
+        alpha: Optional[float] = None,
     ) -> Float[LinearOperator, "... M N"]:
-        return self + other
+        # torch.add(other, self, alpha=alpha) is other + alpha * self: alpha scales the SECOND operand
+        if alpha is None:
+            return self + other
+        return self * alpha + other
 
     def __rmul__(
         self: Float[LinearOperator, "*batch #M #N"],
@@ -2987,8 +2992,10 @@ class LinearOperator(object):
     def __rsub__(
         self: Float[LinearOperator, "*batch #M #N"],
         other: Union[Float[torch.Tensor, "*batch2 #M #N"], Float[LinearOperator, "*batch2 #M #N"], float],
+        alpha: Optional[float] = None,
     ) -> Float[LinearOperator, "... M N"]:
-        return self.mul(-1) + other
+        # torch.sub(other, self, alpha=alpha) is other - alpha * self
+        return self.mul(-1 if alpha is None else -alpha) + other
 
     @classmethod
     def __torch_function__(
